@@ -9,14 +9,14 @@ MC = "model_checking"
 EX = "exploration"
 T = {
  "C01": (MC, "bounded exhaustive enumeration of all (pattern, text) pairs against a definitional reference + explicit-state BFS over search/generator histories on one pattern object",
-         "Exhaustive within the stated lengths (texts <= 6 quick / <= 8 thorough, all colourings for small sizes) and history depth (5/6 operations, 3 live generators); every case runs on the real code and is compared with combinations+standardisation.",
+         "Exhaustive within the stated lengths (texts <= 6 quick / <= 8 thorough, all colourings for small sizes) and history depth (5/6 operations, 3 live generators); every case runs on the real code and is compared with combinations+standardisation. For longer patterns (to length 8/9) a deviation of the documented floor/ceiling helper is used as a guide to search extensions of the pattern for a really wrong (pattern, text) pair.",
          "reference model mc/refmodel.py; lengths beyond the bounds and histories deeper than the bound are not explored", "5/C01"),
  "C02": (MC, "bounded exhaustive enumeration of bases x request orders against reference levels + explicit-state BFS over query/iterator/clear_cache histories on real Av objects",
-         "All bases of the stated families (all subsets of S1..S3, all <=2 (thorough <=3) element bases over S<=4, all mesh patterns of length <=2 as single-element bases, pairs from a mesh pool) with three request orders and all observers, levels to 6/7(8); BFS over operation histories to depth 3/4 with exact canonical states. Three recorded known findings (mesh classes) are matched through deviation models.",
+         "All bases of the stated families (all subsets of S1..S3, all <=2 (thorough <=3) element bases over S<=4, all mesh patterns of length <=2 as single-element bases, pairs from a mesh pool) with four request orders (incl. an instance held across clear_cache) and all observers, levels to 6/7(8); deep levels to 11-13 for S3-based bases against a downward-closure reference; BFS over operation histories to depth 3/4 with exact canonical states, five initial states and every live iterator drained after every history. Three recorded known findings (mesh classes) are matched through deviation models.",
          "reference levels: pattern-profile table (self-tested against the naive definition) and definitional mesh filter; order inside one length is not demanded", "5/C02"),
  "C07": (MC, "stateless schedule exploration of real threads under a cooperative scheduler, iterative preemption bounding (DFS over choice sequences)",
-         "Every schedule of 2-4 thread harnesses within preemption bound 2 (1 for 3-4 threads; thorough: 3 for two threads, 2 for three, opcode granularity at bound 1); scheduling points = line/opcode events in permuta/perm_sets/*.py and lock acquires; deadlock and hang detection; each execution's answers compared with the reference.",
-         "CPython GIL semantics; shared class state only touched from permuta/perm_sets/*.py; library locks replaced from outside by cooperative locks; more preemptions than the bound are not explored", "5/C07"),
+         "Every schedule of eight two-thread harnesses within preemption bound 2 and of a three-thread harness within bound 1 (thorough: bound 3 for four small harnesses, three threads bound 2, four threads bound 1; 2.07M executions); scheduling points = line events in permuta/perm_sets/*.py and lock creation/acquisition; deadlock and hang detection; each execution's answers compared with the reference; recorded schedules replay deterministically.",
+         "CPython GIL semantics; shared class state only touched from permuta/perm_sets/*.py; library locks replaced from outside by cooperative locks; switches inside one source line and more preemptions than the bound are not explored (opcode granularity is not reproducible under adaptive specialisation)", "5/C07"),
 }
 # properties whose check module is finished are added here as the work proceeds
 EXTRA = os.path.join(V, "tools", "manifest_extra.json")
